@@ -71,6 +71,13 @@ ADD7 = {
  "C19": " Seventh round: every batch entry point runs in six verifier configurations (fresh, key expansion off, behind / in front of a valid companion, both, capacity hint) which must agree, with batch-only verification and a second Verify.",
 }
 
+ADD8 = {
+ "C01": " Eighth round: undecodable R (and A) with a scalar chosen so that the equation would hold if the undecodable string were taken for the identity or for the base point.",
+ "C02": " Eighth round: every second mixed-fault batch is verified incrementally - after every add the prefix is verified (Verify and VerifyBatchOnly) against the single verifications of the prefix.",
+ "C09": " Eighth round: every pool entry under option sets that are themselves unacceptable (unknown pre-hash, pre-hash of the wrong length, over-long context): the expanded path must decide exactly as the plain one, panic for panic.",
+ "C18": " Eighth round: a deadlock witness monitor on the stress and herd phases - when the operation counter stands still, a goroutine dump in which every goroutine inside the cache package is parked acquiring its lock is a violation (nobody can release it); elapsed time alone never is.",
+}
+
 CLAIMED = {
  # id: (technique, level text, level note, design_ref)
  "C01": ("reference-model monitor (big-integer RFC 8032 predicate + crypto/ed25519) shadowing every verification call over adversarial input families, 4 backends",
@@ -144,7 +151,7 @@ def main():
         i = p['id']
         if i in CLAIMED:
             tech, text, note, ref = CLAIMED[i]
-            text = text + ADDENDA.get(i, "") + ADD6.get(i, "") + ADD7.get(i, "")
+            text = text + ADDENDA.get(i, "") + ADD6.get(i, "") + ADD7.get(i, "") + ADD8.get(i, "")
             tech = tech + TECH_ADD.get(i, "")
             checks.append({
                 "property_id": i,
